@@ -193,6 +193,8 @@ pub struct CodegenContext {
 
     next_macro_scope_id: usize,
     macro_invocation_depth: usize,
+    /// Set when an invocation went over the nesting limit in this pass: what is left of the expansion is abandoned
+    macro_nesting_exceeded: bool,
     dummy_segment_depth: usize,
     /// The files that are currently being emitted (the main file and the chain of imports leading to the current file)
     import_stack: Vec<PathBuf>,
@@ -245,6 +247,7 @@ impl CodegenContext {
             current_scope_nx: SymbolIndex::new(0),
             next_macro_scope_id: 0,
             macro_invocation_depth: 0,
+            macro_nesting_exceeded: false,
             dummy_segment_depth: 0,
             import_stack,
             test_elements: vec![],
@@ -333,6 +336,7 @@ impl CodegenContext {
     fn next_pass(&mut self) {
         self.pass_idx += 1;
         self.next_macro_scope_id = 0;
+        self.macro_nesting_exceeded = false;
 
         log::trace!("\n* NEXT PASS ({}) *", self.pass_idx);
         self.segments.values_mut().for_each(|s| s.reset());
@@ -1053,7 +1057,13 @@ impl CodegenContext {
 
                     // A macro that (directly or indirectly) invokes itself would never stop expanding
                     const MAX_MACRO_INVOCATION_DEPTH: usize = 64;
+                    if self.macro_nesting_exceeded && self.macro_invocation_depth > 0 {
+                        // The limit has been reported. The invocations still pending in the abandoned expansion are not
+                        // expanded any more: a macro that invokes itself twice would otherwise do so 2^64 times.
+                        return Ok(());
+                    }
                     if self.macro_invocation_depth >= MAX_MACRO_INVOCATION_DEPTH {
+                        self.macro_nesting_exceeded = true;
                         return Err(Diagnostic::error()
                             .with_message(format!(
                                 "macro '{}' is nested more than {} invocations deep (recursive macro?)",
